@@ -1894,18 +1894,23 @@ class MkcolMethod(Method):
         href, path, resource = app._get_resource_from_environ(request, environ)
         if resource is not None:
             return _send_method_not_allowed(app._get_allowed_methods(request))
-        try:
-            resource = app.backend.create_collection(path)
-        except FileNotFoundError:
-            return Response(status=409, reason="Conflict")
+        sets = None
         if base_content_type in ("text/xml", "application/xml"):
-            # Extended MKCOL (RFC5689)
+            # Extended MKCOL (RFC5689); reject a bad body before creating anything
             et = await _readXmlBody(request, "{DAV:}mkcol", strict=app.strict)
-            propstat = []
+            sets = []
             for el in et:
                 if el.tag != "{DAV:}set":
                     nonfatal_bad_request(f"Unknown tag {el.tag} in mkcol", app.strict)
                     continue
+                sets.append(el)
+        try:
+            resource = app.backend.create_collection(path)
+        except FileNotFoundError:
+            return Response(status=409, reason="Conflict")
+        if sets is not None:
+            propstat = []
+            for el in sets:
                 propstat.extend(
                     [
                         ps
